@@ -14,6 +14,7 @@ import (
 	"owverif.local/verif/checks/c14"
 	"owverif.local/verif/checks/c15"
 	"owverif.local/verif/checks/c16"
+	"owverif.local/verif/checks/c17"
 	"owverif.local/verif/checks/c18"
 	"owverif.local/verif/checks/c19"
 	"owverif.local/verif/checks/c20"
@@ -33,6 +34,7 @@ var registry = map[string]func() *vf.Check{
 	"C14": c14.Spec,
 	"C15": c15.Spec,
 	"C16": c16.Spec,
+	"C17": c17.Spec,
 	"C18": c18.Spec,
 	"C19": c19.Spec,
 	"C20": c20.Spec,
